@@ -114,30 +114,54 @@ pub fn accept_case(doc: &Doc) -> Vec<(String, String)> {
     if parser.ac_at(acs.len()).is_some() {
         out.push(("accept:formula-extra".into(), "more formulas than ac facts".into()));
     }
-    // diagrams of the native construction: each statement's handle denotes the function written in the file
+    // diagrams of the native construction: each statement's handle denotes the function written in the file - first as
+    // parsed, then after sorting the SAME parser object lexicographically and building again, then alphanumerically
+    // (the parser keeps state between these steps)
     let n = want_names.len();
     if n <= 5 && acs.len() == n && out.is_empty() {
-        match guard(|| Adf::from_parser(&parser)) {
-            Err(m) => out.push(("accept:construction-panic".into(), m)),
-            Ok(adf) => {
-                for (li, fm) in &acs {
-                    let pos = decl.iter().position(|d| d == li).unwrap();
-                    // atoms of fm are label indices; variable index of a label = its declaration position
-                    let mut tt = 0u32;
-                    for a in 0..(1u32 << n) {
-                        if fm.eval_with(&|atom| decl.iter().position(|d| *d == atom).map(|p| a >> p & 1 == 1).unwrap_or(false)) {
-                            tt |= 1 << a;
-                        }
-                    }
-                    match tt_of(&adf.bdd.nodes, adf.ac[pos], n) {
-                        Ok(got) => {
-                            if got != tt {
-                                out.push(("accept:function".into(), format!("the diagram of statement {:?} denotes {:#x}, the written condition {:#x}", doc.labels[*li], got, tt)));
+        for stage in 0..3 {
+            let sname = ["as parsed", "after varsort_lexi on the same parser", "after varsort_alphanum on the same parser"][stage];
+            match stage {
+                1 => {
+                    parser.varsort_lexi();
+                }
+                2 => {
+                    parser.varsort_alphanum();
+                }
+                _ => {}
+            }
+            // variable index of every declared label now
+            let var_of: Vec<Option<usize>> = decl.iter().map(|d| parser.dict_value(&doc.labels[*d])).collect();
+            if var_of.iter().any(|v| v.is_none()) || var_of.iter().map(|v| v.unwrap()).collect::<BTreeSet<_>>().len() != n {
+                out.push(("accept:dictionary".into(), format!("{}: the dictionary is not a bijection onto 0..{}: {:?}", sname, n, var_of)));
+                break;
+            }
+            let var_of: Vec<usize> = var_of.into_iter().map(|v| v.unwrap()).collect();
+            match guard(|| Adf::from_parser(&parser)) {
+                Err(m) => out.push(("accept:construction-panic".into(), format!("{}: {}", sname, m))),
+                Ok(adf) => {
+                    for (li, fm) in &acs {
+                        let pos = decl.iter().position(|d| d == li).unwrap();
+                        // truth table of the written condition over the CURRENT variable order
+                        let mut tt = 0u32;
+                        for a in 0..(1u32 << n) {
+                            if fm.eval_with(&|atom| decl.iter().position(|d| *d == atom).map(|p| a >> var_of[p] & 1 == 1).unwrap_or(false)) {
+                                tt |= 1 << a;
                             }
                         }
-                        Err(e) => out.push(("accept:diagram".into(), e)),
+                        match tt_of(&adf.bdd.nodes, adf.ac[var_of[pos]], n) {
+                            Ok(got) => {
+                                if got != tt {
+                                    out.push(("accept:function".into(), format!("{}: the diagram of statement {:?} denotes {:#x}, the written condition {:#x}", sname, doc.labels[*li], got, tt)));
+                                }
+                            }
+                            Err(e) => out.push(("accept:diagram".into(), format!("{}: {}", sname, e))),
+                        }
                     }
                 }
+            }
+            if !out.is_empty() {
+                break;
             }
         }
     }
